@@ -31,7 +31,10 @@ RULE = ('cases from one SplitMix64 state: 40% BBox3D functions (new, from_point,
         'variants recorded; non-trivial = not from_point/max_extent/surface_area and operands well formed; distinct = distinct input bits')
 ASSUMPTIONS = [
     'Coq 8.16.1 kernel + vm_compute; order lemmas proved for any instance whose comparisons form a total order on the values '
-    'involved (reals; finite Flocq floats of every format); containment under transforms and of primitive surfaces proved on the real instance',
+    'involved (reals; finite Flocq floats of every format); containment under transforms and of primitive surfaces proved on the real instance; '
+    'float tier (every Flocq format, restated on the executed primitive-float instances through the Prim2B / of_b32 homomorphisms): the COMPUTED '
+    'transformed box contains the COMPUTED image of every float point of the box, for finite matrix rows, bottom row (0,0,0,1), finite box, '
+    'no NaN among the eight computed corner images (overflow to an infinity allowed)',
     'model = code: bbox3d.rs, transform_bbox/inv_transform_bbox and the bounds()/world_bounds() of triangle, sphere, cylinder '
     'checked bit-for-bit on primitive floats (matrices read through the hook; Cylinder3D::new passes through libm, its transform is read back)',
     'hits are the crate\'s own; their containment is sampled by the exact-rational oracle (float vs exact evaluation is not proved)',
@@ -39,7 +42,14 @@ ASSUMPTIONS = [
 THEOREMS = ['C15_new_normalises', 'C15_union_contains_both', 'C15_union_point_contains_box_and_point', 'C15_intersection_contained_in_both',
             'C15_overlaps_symmetric', 'C15_overlaps_iff_common_point', 'C15_point_inside_characterised',
             'C15_transformed_box_contains_image', 'C15_bbox_round_trip_contains', 'C15_triangle_bounds', 'C15_sphere_bounds',
-            'C15_cylinder_bounds', 'C15_world_bounds_contain_surface']
+            'C15_cylinder_bounds', 'C15_world_bounds_contain_surface',
+            # float tier: the COMPUTED transformed box contains the COMPUTED image (every Flocq format; primitive floats)
+            'C15_float_add_monotone', 'C15_float_mul_monotone', 'C15_float_row_between_corners',
+            'C15_float_transformed_box_contains_image', 'C15_float_transformed_box_contains_image_evaluable',
+            'C15_float_transform_bbox_contains_image', 'C15_float_world_bounds_contain',
+            'C15_prim_transformed_box_contains_image', 'C15_prim_transform_bbox_contains_image',
+            'C15_prim_world_bounds_contain', 'C15_prim_every_corner_is_needed', 'C15_prim_nan_corner_outside_hypothesis',
+            'C15_prim32_transformed_box_contains_image']
 
 U = Fr(1, 2 ** 53)
 
